@@ -136,15 +136,22 @@ func c03Equal(_ c03Case, impl, model Sexp) bool {
 
 func c03Decode(rd io.ReadCloser) Sexp {
 	it := dockerlog.ParseLog(rd, otelstorage.Attrs(pcommon.NewMap()))
-	var recs []Sexp
+	// the records are kept across the following Next calls and only read once the stream has ended,
+	// as the engine does (it collects entries): a body that aliases a reused read buffer shows here
+	var kept []logstorage.Record
 	var r logstorage.Record
 	for it.Next(&r) {
-		recs = append(recs, L(A("rec"), N(int64(r.Timestamp)), B(r.Body)))
-		if len(recs) > 100000 {
+		kept = append(kept, r)
+		if len(kept) > 100000 {
 			return L(A("runaway"))
 		}
 	}
-	return L(LS(recs), A(errClass(it.Err())))
+	err := it.Err()
+	recs := make([]Sexp, 0, len(kept))
+	for _, k := range kept {
+		recs = append(recs, L(A("rec"), N(int64(k.Timestamp)), B(k.Body)))
+	}
+	return L(LS(recs), A(errClass(err)))
 }
 
 var c03Bodies = []string{"", " ", "hello", "a b  c", "line\nbreak", "\x00\xff\xfe", "trailing \r\n", "2024-01-01T00:00:00Z x", "é"}
